@@ -296,12 +296,8 @@ func (w *World) rulesReturns(p *Pkg, m *parseModel, km *KvmModel, add func(ok bo
 			}
 		}
 		// typed error: &ErrMissing{Abv: lit}
-		if u, ok := r1.(*ast.UnaryExpr); ok && u.Op == token.AND {
-			if cl, ok := u.X.(*ast.CompositeLit); ok {
-				tn := ""
-				if named, ok := info.Types[cl].Type.(*types.Named); ok {
-					tn = named.Obj().Name()
-				}
+		if tn, abvExpr, isTyped := p.typedErrOf(r1); isTyped {
+			{
 				if ks := m.kvmSem; tn == "ErrMissing" && ks != nil && ks.Decided && ks.TailWhy != "" && afterLoop(rs) {
 					// decided semantically for every subset of mandatory metrics (below)
 					add(true, "R01.pair", name("missing"), rs, "(nil, &ErrMissing{…}): provably non-nil")
@@ -309,12 +305,8 @@ func (w *World) rulesReturns(p *Pkg, m *parseModel, km *KvmModel, add func(ok bo
 				}
 				if tn == "ErrMissing" && km != nil && ifs != nil && inBody {
 					lit := ""
-					if len(cl.Elts) == 1 {
-						v := cl.Elts[0]
-						if kv, ok := v.(*ast.KeyValueExpr); ok {
-							v = kv.Value
-						}
-						lit, _ = constString(info, v)
+					if abvExpr != nil {
+						lit, _ = constString(info, abvExpr)
 					}
 					// cond: !kvm.f
 					var flag *types.Var
